@@ -479,6 +479,11 @@ class Calls(object):
         (a,) = self._args(ev, node, st)
         return ev.coerce(a, TObj(), "obj()")
 
+    def spec_val(self, ev, node, st):
+        """val(x): x seen as a dynamically typed value (None / bool / int / str), the cast applied when a value flows into a Val slot"""
+        (a,) = self._args(ev, node, st)
+        return ev.coerce(a, TVal(), "val()")
+
     def spec_len(self, ev, node, st):
         return self.bi_len(ev, node, st)
 
